@@ -310,6 +310,222 @@ theorem section_data_prefix_err_or_same {p f : Slice} (h : Prefix p f) (g : ElfB
           | err e => simp
           | ok c => exact Out.bind_ne_panic _ _ (Out.ofOption_ne_panic _ _) (fun _ _ => by simp))
 
+/-! ### the remaining accessors -/
+
+/-- `extend` changes nothing but the data -/
+theorem extend_fields (g : ElfBytes) (f : Slice) :
+    (extend g f).ehdr = g.ehdr ∧ (extend g f).shdrs = g.shdrs ∧ (extend g f).phdrs = g.phdrs ∧
+    (extend g f).data = f := ⟨rfl, rfl, rfl, rfl⟩
+
+theorem section_data_as_dynamic_mono {p f : Slice} (h : Prefix p f) (g : ElfBytes) (hg : g.data = p)
+    (sh : SectionHeader) (t : Table Dyn)
+    (hp : g.sectionDataAsDynamic sh = .ok t) : (extend g f).sectionDataAsDynamic sh = .ok t := by
+  unfold ElfBytes.sectionDataAsDynamic at *
+  split
+  · rename_i h0; simp [h0] at hp
+  · rename_i h0
+    simp only [h0, if_false] at hp
+    refine bind_mono (fun _ hx => hx) (fun _ hk => ?_) hp
+    exact bind_mono (fun r hr => section_data_mono h g hg sh r hr) (fun _ hk => hk) hk
+
+theorem dynamic_from_segments_mono {p f : Slice} (h : Prefix p f) (g : ElfBytes) (hg : g.data = p)
+    (o : Option (Table Dyn))
+    (hp : g.dynamicFromSegments = .ok o) : (extend g f).dynamicFromSegments = .ok o := by
+  unfold ElfBytes.dynamicFromSegments at *
+  show (match g.phdrs with | some phdrs => _ | none => _) = _
+  cases hs : g.phdrs with
+  | none => simpa [hs] using hp
+  | some phdrs =>
+    simp only [hs] at hp ⊢
+    refine bind_mono (fun _ hx => hx) (fun o hk => ?_) hp
+    cases o with
+    | none => exact hk
+    | some phdr =>
+      simp only at hk ⊢
+      refine bind_mono (fun _ hx => hx) (fun rg hk => ?_) hk
+      exact bind_mono (fun w hw => by show f.getBytes _ _ = _; rw [hg] at hw; exact getBytes_mono h _ _ w hw)
+        (fun _ hk => hk) hk
+
+theorem dynamic_mono {p f : Slice} (h : Prefix p f) (g : ElfBytes) (hg : g.data = p)
+    (o : Option (Table Dyn)) (hp : g.dynamic = .ok o) : (extend g f).dynamic = .ok o := by
+  unfold ElfBytes.dynamic at *
+  show (match g.shdrs with | some shdrs => _ | none => _) = _
+  cases hs : g.shdrs with
+  | none =>
+    simp only [hs] at hp ⊢
+    exact dynamic_from_segments_mono h g hg o hp
+  | some shdrs =>
+    simp only [hs] at hp ⊢
+    refine bind_mono (fun _ hx => hx) (fun o hk => ?_) hp
+    cases o with
+    | none => exact hk
+    | some shdr =>
+      simp only at hk ⊢
+      exact bind_mono (fun t ht => section_data_as_dynamic_mono h g hg _ t ht) (fun _ hk => hk) hk
+
+theorem section_notes_mono {p f : Slice} (h : Prefix p f) (g : ElfBytes) (hg : g.data = p)
+    (sh : SectionHeader) (it : NoteIter)
+    (hp : g.sectionDataAsNotes sh = .ok it) : (extend g f).sectionDataAsNotes sh = .ok it := by
+  unfold ElfBytes.sectionDataAsNotes at *
+  exact bind_mono (fun w hw => typed_section_mono h g hg sh _ w hw) (fun _ hk => hk) hp
+
+theorem section_rels_mono {p f : Slice} (h : Prefix p f) (g : ElfBytes) (hg : g.data = p)
+    (sh : SectionHeader) (it : Iter Rel)
+    (hp : g.sectionDataAsRels sh = .ok it) : (extend g f).sectionDataAsRels sh = .ok it := by
+  unfold ElfBytes.sectionDataAsRels at *
+  exact bind_mono (fun w hw => typed_section_mono h g hg sh _ w hw) (fun _ hk => hk) hp
+
+theorem section_relas_mono {p f : Slice} (h : Prefix p f) (g : ElfBytes) (hg : g.data = p)
+    (sh : SectionHeader) (it : Iter Rela)
+    (hp : g.sectionDataAsRelas sh = .ok it) : (extend g f).sectionDataAsRelas sh = .ok it := by
+  unfold ElfBytes.sectionDataAsRelas at *
+  exact bind_mono (fun w hw => typed_section_mono h g hg sh _ w hw) (fun _ hk => hk) hp
+
+theorem segment_notes_mono {p f : Slice} (h : Prefix p f) (g : ElfBytes) (hg : g.data = p)
+    (ph : ProgramHeader) (it : NoteIter)
+    (hp : g.segmentDataAsNotes ph = .ok it) : (extend g f).segmentDataAsNotes ph = .ok it := by
+  unfold ElfBytes.segmentDataAsNotes at *
+  split
+  · rename_i h0; simp [h0] at hp
+  · rename_i h0
+    simp only [h0, if_false] at hp
+    exact bind_mono (fun w hw => segment_data_mono h g hg ph w hw) (fun _ hk => hk) hp
+
+theorem section_header_by_name_mono {p f : Slice} (h : Prefix p f) (g : ElfBytes) (hg : g.data = p)
+    (name : Slice) (o : Option SectionHeader)
+    (hp : g.sectionHeaderByName name = .ok o) : (extend g f).sectionHeaderByName name = .ok o := by
+  unfold ElfBytes.sectionHeaderByName at *
+  exact bind_mono (fun r hr => section_headers_with_strtab_mono h g hg r hr) (fun _ hk => hk) hp
+
+theorem ver_records_mono {p f : Slice} (h : Prefix p f) (g : ElfBytes) (hg : g.data = p)
+    (shdrs : Table SectionHeader) (o : Option SectionHeader) (r : Option (VerIter × Slice))
+    (hp : g.verRecords shdrs o = .ok r) : (extend g f).verRecords shdrs o = .ok r := by
+  unfold ElfBytes.verRecords at *
+  cases o with
+  | none => exact hp
+  | some shdr =>
+    simp only at hp ⊢
+    refine bind_mono (fun _ hx => hx) (fun _ hk => ?_) hp
+    refine bind_mono (fun w hw => by show f.getBytes _ _ = _; rw [hg] at hw; exact getBytes_mono h _ _ w hw)
+      (fun _ hk => ?_) hk
+    refine bind_mono (fun _ hx => hx) (fun _ hk => ?_) hk
+    refine bind_mono (fun _ hx => hx) (fun _ hk => ?_) hk
+    exact bind_mono (fun w hw => by show f.getBytes _ _ = _; rw [hg] at hw; exact getBytes_mono h _ _ w hw)
+      (fun _ hk => hk) hk
+
+theorem symbol_version_table_mono {p f : Slice} (h : Prefix p f) (g : ElfBytes) (hg : g.data = p)
+    (o : Option SymbolVersionTable)
+    (hp : g.symbolVersionTable = .ok o) : (extend g f).symbolVersionTable = .ok o := by
+  unfold ElfBytes.symbolVersionTable at *
+  show (match g.shdrs with | none => _ | some shdrs => _) = _
+  cases hs : g.shdrs with
+  | none => simpa [hs] using hp
+  | some shdrs =>
+    simp only [hs] at hp ⊢
+    refine bind_mono (fun _ hx => hx) (fun sc hk => ?_) hp
+    obtain ⟨vs, nd, df⟩ := sc
+    simp only at hk ⊢
+    cases vs with
+    | none => exact hk
+    | some versym =>
+      simp only at hk ⊢
+      refine bind_mono (fun _ hx => hx) (fun _ hk => ?_) hk
+      refine bind_mono (fun _ hx => hx) (fun _ hk => ?_) hk
+      refine bind_mono (fun w hw => by show f.getBytes _ _ = _; rw [hg] at hw; exact getBytes_mono h _ _ w hw)
+        (fun _ hk => ?_) hk
+      refine bind_mono (fun r hr => ver_records_mono h g hg shdrs _ r hr) (fun _ hk => ?_) hk
+      exact bind_mono (fun r hr => ver_records_mono h g hg shdrs _ r hr) (fun _ hk => hk) hk
+
+theorem common_step_mono {p f : Slice} (h : Prefix p f) (g : ElfBytes) (hg : g.data = p)
+    (shdrs : Table SectionHeader) (acc : ElfBytes.CommonElfData) (sh : SectionHeader)
+    (r : ElfBytes.CommonElfData)
+    (hp : g.commonStep shdrs acc sh = .ok r) : (extend g f).commonStep shdrs acc sh = .ok r := by
+  unfold ElfBytes.commonStep at *
+  split
+  · rename_i h0
+    simp only [h0, if_true] at hp
+    refine bind_mono (fun _ hx => hx) (fun _ hk => ?_) hp
+    exact bind_mono (fun r hr => section_data_as_symbol_table_mono h g hg _ _ r hr) (fun _ hk => hk) hk
+  · rename_i h0
+    simp only [h0, if_false] at hp
+    split
+    · rename_i h1
+      simp only [h1, if_true] at hp
+      refine bind_mono (fun _ hx => hx) (fun _ hk => ?_) hp
+      exact bind_mono (fun r hr => section_data_as_symbol_table_mono h g hg _ _ r hr) (fun _ hk => hk) hk
+    · rename_i h1
+      simp only [h1, if_false] at hp
+      split
+      · rename_i h2
+        simp only [h2, if_true] at hp
+        exact bind_mono (fun t ht => section_data_as_dynamic_mono h g hg _ t ht) (fun _ hk => hk) hp
+      · rename_i h2
+        simp only [h2, if_false] at hp
+        split
+        · rename_i h3
+          simp only [h3, if_true] at hp
+          refine bind_mono (fun _ hx => hx) (fun _ hk => ?_) hp
+          exact bind_mono (fun w hw => by show f.getBytes _ _ = _; rw [hg] at hw; exact getBytes_mono h _ _ w hw)
+            (fun _ hk => hk) hk
+        · rename_i h3
+          simp only [h3, if_false] at hp
+          split
+          · rename_i h4
+            simp only [h4, if_true] at hp
+            refine bind_mono (fun _ hx => hx) (fun _ hk => ?_) hp
+            exact bind_mono (fun w hw => by show f.getBytes _ _ = _; rw [hg] at hw; exact getBytes_mono h _ _ w hw)
+              (fun _ hk => hk) hk
+          · rename_i h4
+            simp only [h4, if_false] at hp
+            exact hp
+
+theorem common_scan_mono {p f : Slice} (h : Prefix p f) (g : ElfBytes) (hg : g.data = p)
+    (shdrs : Table SectionHeader) (fuel : Nat) (it : Iter SectionHeader) (acc r : ElfBytes.CommonElfData)
+    (hp : g.commonScan shdrs fuel it acc = .ok r) : (extend g f).commonScan shdrs fuel it acc = .ok r := by
+  induction fuel generalizing it acc with
+  | zero => simpa [ElfBytes.commonScan] using hp
+  | succ n ih =>
+    unfold ElfBytes.commonScan at hp ⊢
+    generalize it.next = q at hp ⊢
+    obtain ⟨q1, q2⟩ := q
+    cases q1 with
+    | err e => exact hp
+    | panic => exact hp
+    | ok o =>
+      cases o with
+      | none => exact hp
+      | some sh =>
+        simp only at hp ⊢
+        exact bind_mono (fun a ha => common_step_mono h g hg shdrs acc sh a ha) (fun a hk => ih q2 a hk) hp
+
+/-- **`find_common_data`**: on a prefix it is an error or exactly the answer on the complete file. -/
+theorem find_common_data_mono {p f : Slice} (h : Prefix p f) (g : ElfBytes) (hg : g.data = p)
+    (r : ElfBytes.CommonElfData)
+    (hp : g.findCommonData = .ok r) : (extend g f).findCommonData = .ok r := by
+  unfold ElfBytes.findCommonData at *
+  refine bind_mono (fun a ha => ?_) (fun res hk => ?_) hp
+  · unfold ElfBytes.sectionScan at *
+    show (match g.shdrs with | some shdrs => _ | none => _) = _
+    cases hs : g.shdrs with
+    | none => simpa [hs] using ha
+    | some shdrs =>
+      simp only [hs] at ha ⊢
+      exact common_scan_mono h g hg shdrs _ _ _ a ha
+  · split
+    · rename_i h0
+      simp only [h0, if_true] at hk
+      exact bind_mono (fun o ho => dynamic_from_segments_mono h g hg o ho) (fun _ hk => hk) hk
+    · rename_i h0
+      simp only [h0] at hk
+      exact hk
+
+/-- **Appending bytes changes no answer** is the same statement read the other way: `p` is a
+    prefix of `f` exactly when `f` is `p` with bytes appended, and every `_mono` theorem says an
+    answer on `p` is the answer on `f`. -/
+theorem append_changes_nothing {p f : Slice} (h : Prefix p f) (g : ElfBytes) (hg : g.data = p)
+    (o : Option (Table Dyn)) (hp : g.dynamic = .ok o) : (extend g f).dynamic = .ok o :=
+  dynamic_mono h g hg o hp
+
 /- Non-vacuity: a 3-byte prefix of a 5-byte window; a range that fits both. -/
 example : Prefix ⟨#[1, 2, 3, 4, 5], 0, 3⟩ ⟨#[1, 2, 3, 4, 5], 0, 5⟩ := ⟨rfl, rfl, by decide⟩
 example : (⟨#[1, 2, 3, 4, 5], 0, 3⟩ : Slice).getBytes 1 3 = (⟨#[1, 2, 3, 4, 5], 0, 5⟩ : Slice).getBytes 1 3 := by decide
